@@ -160,9 +160,8 @@ def hTestPoly (toks : List String) : Option String := do
   let q ← (kv? toks "Q") >>= parseVec?
   let scale ← (kv? toks "scale") >>= parseNat?
   let vals ← (kv? toks "vals") >>= parseVec?
-  let sc := Float.ofBits scale.toUInt64
   let _ := n
-  pure (showMat (q.map fun qi => vals.map fun v => scaleUp (Float.ofBits v.toUInt64) sc qi % qi))
+  pure (showMat (q.map fun qi => vals.map fun v => scaleUpBits v scale qi % qi))
 
 def getKeyList (toks : List String) (qs : List Nat) (i : Nat) : Option (List (RPoly × RPoly)) := do
   let k0 ← (kv? toks ("k" ++ toString i ++ "0")) >>= parsePolys?
